@@ -3,6 +3,7 @@ import MysticVerif.Basic.Proto
 import MysticVerif.Model.Emitted
 import MysticVerif.Drv.C13
 import MysticVerif.Model.EmittedJoin
+import MysticVerif.Model.EmittedPShape
 
 namespace MysticVerif.DrvC14
 open MysticVerif MysticVerif.Emitted MysticVerif.DrvC13
@@ -30,6 +31,24 @@ def parseCond : Val → Option (Kind × PType × Expr UInt64)
   | _ => none
 
 def inf : Float := 1.0 / 0.0
+
+/-- a condition of a shaped request: `(kind expr)` (the types come with the `ptype` argument) -/
+def parseCond2 : Val → Option (Kind × Expr UInt64)
+  | .list [k, e] => do pure (← parseKind k, ← parseExpr e)
+  | _ => none
+
+/-- a nesting of lists around penalty type names -/
+partial def parseNestPType : Val → Option (Nest PType)
+  | .list l => do pure (.node (← l.mapM parseNestPType))
+  | v => (parsePType v).map .leaf
+
+def parsePArg : Val → Option PArg
+  | .sym "none" => some .none
+  | v => (parseNestPType v).map PArg.ofNest
+
+def showPType : PType → String
+  | .qEq => "quadratic_equality" | .lEq => "linear_equality" | .uEq => "uniform_equality"
+  | .qIneq => "quadratic_inequality" | .lIneq => "linear_inequality" | .uIneq => "uniform_inequality"
 
 def handle : Handler
   | .sym "pen" :: args => Id.run do
@@ -72,6 +91,53 @@ def handle : Handler
     match penJoin env k' inf kj pj gs x with
     | some v => return s!"ok res=value pen={pF v} parts={pFs parts} conform={pL (conf.map pB)}"
     | none => return s!"ok res=raises parts={pFs parts} conform={pL (conf.map pB)}"
+  | .sym "pens" :: args => Id.run do       -- generate_penalty for every SHAPE of conditions / ptype (Model/EmittedPShape)
+    let some tol := (kw? args "tol").bind Val.asFloat? | return "bad-op"
+    let some rel := (kw? args "rel").bind Val.asFloat? | return "bad-op"
+    let some k := (kw? args "k").bind Val.asFloat? | return "bad-op"
+    let some h := (kw? args "h").bind Val.asFloat? | return "bad-op"
+    let some n := (kw? args "n").bind Val.asNat? | return "bad-op"
+    let some kj := (kw? args "kj").bind Val.asFloat? | return "bad-op"
+    let some x := (kw? args "x").bind Val.asFloats? | return "bad-op"
+    let some j := (kw? args "join").bind Val.asSym? | return "bad-op"
+    let some rels := (kw? args "rels").bind Val.asList? |>.bind (·.mapM parseRel2) | return "bad-op"
+    let some conds := (kw? args "conds").bind Val.asList? |>.bind (·.mapM parseCond2) | return "bad-op"
+    let some nest := (kw? args "nest").bind parseNestNat | return "bad-op"
+    let some pt := (kw? args "ptype").bind parsePArg | return "bad-op"
+    if rels.length != conds.length then return "bad-op"
+    if (Nest.flat nest).any (fun q => conds.length ≤ q) then return "bad-op"
+    let env := mkEnv tol rel
+    let recog := List.zipWith (fun r (c : Kind × Expr UInt64) => recogniseCond r c.1 c.2) rels conds
+    let rs := pL (recog.map pB)
+    let cv := conds.map fun c => if c.2.defined env x then pF (c.2.eval env x) else "raises"
+    let k' := k * powN h n
+    let kindAt := fun (q : Nat) => (conds.getD q default).1
+    let exprAt := fun (q : Nat) => (conds.getD q default).2
+    -- the nesting over (kind, position): the model pairs types with POSITIONS, the expressions are looked up afterwards
+    let cn : Nest (Kind × Nat) := Nest.map (fun q => (kindAt q, q)) nest
+    let stack := fun (ws : List (PType × (Kind × Nat))) => ws.map fun w => (w.1, exprAt w.2.2)
+    let conformOf := fun (ws : List (PType × (Kind × Nat))) => ws.all fun w => decide (w.1.kind = w.2.1)
+    match j with
+    | "none" =>
+      let items := gpItems cn pt
+      let cover := decide ((Nest.flatL cn.top).length ≤ items.length)
+      let p := penalty env k' inf (stack items) x
+      return s!"ok recog={rs} cvals={pL cv} types={pL (items.map (showPType ·.1))} used={pNs (items.map (·.2.2))} cover={pB cover} conform={pB (conformOf items)} res=value pen={pF p}"
+    | "and" | "or" =>
+      match gpMembers cn pt with
+      | none => return s!"ok recog={rs} cvals={pL cv} res=generr"
+      | some ms =>
+        let groups := pL (ms.map fun g => pNs (g.map (·.2.2)))
+        let types := pL (ms.map fun g => pL (g.map (showPType ·.1)))
+        let cover := decide (ms.map (fun g => g.map (·.2.2)) = cn.top.map (fun c => (Nest.flatL c.top).map (·.2)))
+        let conform := ms.all conformOf
+        let gs := ms.map stack
+        let parts := gs.map fun g => penalty env k' inf g x
+        let pj := if j == "and" then PJoin.and_ else PJoin.or_
+        match penJoin env k' inf kj pj gs x with
+        | some v => return s!"ok recog={rs} cvals={pL cv} groups={groups} types={types} cover={pB cover} conform={pB conform} parts={pFs parts} res=value pen={pF v}"
+        | none => return s!"ok recog={rs} cvals={pL cv} groups={groups} types={types} cover={pB cover} conform={pB conform} parts={pFs parts} res=raises"
+    | _ => return "bad-op"
   | _ => "bad-op"
 
 end MysticVerif.DrvC14
